@@ -160,3 +160,21 @@ Theorem C13_class_blind : forall h h' constructed root,
   instantiate h constructed root = instantiate h' constructed root /\ load h root = load h' root.
 Proof. exact class_blind. Qed.
 Print Assumptions C13_class_blind.
+
+(* one ObjectStore given to two instance() calls.  instantiate_store h constructed executed root = the call
+   when the store remembers the pre-tasks it has executed (fixes/C13-3.diff): over the two calls no
+   pre-task is executed twice.  Without that memory (instantiate, the code before the patch) a pre-task
+   attached to configurations created by both calls runs in both                                  *)
+Theorem C13_store_pretasks_once : forall h c e root1 root2 r1 r2,
+  NoDup e ->
+  instantiate_store h c e root1 = Some r1 ->
+  instantiate_store h (c ++ map o_id (r_objects r1)) (e ++ execs (r_log r1)) root2 = Some r2 ->
+  NoDup (e ++ execs (r_log r1) ++ execs (r_log r2)).
+Proof. exact store_pretasks_once. Qed.
+Print Assumptions C13_store_pretasks_once.
+
+Theorem C13_store_pretask_twice_refuted : exists h root1 root2 r1 r2 p,
+  instantiate h [] root1 = Some r1 /\ instantiate h (map o_id (r_objects r1)) root2 = Some r2 /\
+  In p (execs (r_log r1)) /\ In p (execs (r_log r2)).
+Proof. exact store_pretask_twice_refuted. Qed.
+Print Assumptions C13_store_pretask_twice_refuted.
